@@ -17,8 +17,10 @@ pub struct ViewNumber(pub u64);
 
 impl ViewNumber {
     /// Get the next view number.
+    /// Wraps around at `u64::MAX`: view numbers come from (not yet verified) network messages,
+    /// and overflow-checked builds must not panic on them.
     pub fn next(self) -> Self {
-        Self(self.0 + 1)
+        Self(self.0.wrapping_add(1))
     }
 
     /// Get the previous view number.
